@@ -101,7 +101,8 @@ func unmarshalTargets(t *sim.Tape, first byte) []mq.Packet {
 	return out
 }
 
-// c04DeepFrames: frames that are as DEEP as the format allows at a size of tens
+// c04DeepFrames: two malformed frames at and near the largest size the format
+// allows, delivered in full, and frames that are as DEEP as the format allows at a size of tens
 // of megabytes - one property section holding millions of the smallest
 // properties. A decoder whose stack grows with the number of elements dies of a
 // stack overflow, which no recover() catches: the calls are made in a child
@@ -117,7 +118,19 @@ func c04DeepFrames() [][]byte {
 		f, _ := ref.Frame(first, body, nil)
 		return f
 	}
+	huge := func(first byte, n int) []byte {
+		// a body of n bytes of 0xFF: malformed for every type, delivered in full
+		f := ref.AppendVarint([]byte{first}, uint32(n))
+		h := len(f)
+		f = append(f, make([]byte, n)...)
+		for i := h; i < len(f); i++ {
+			f[i] = 0xFF
+		}
+		return f
+	}
 	return [][]byte{
+		huge(0x20, 100000007), // one hundred million bytes and a few: a malformed CONNACK
+		huge(0x30, 268435455), // the largest remaining length there is: a malformed PUBLISH
 		mk(0x30, []byte{0, 1, 'a'}, []byte{0x01, 0x00}, 11<<20, []byte("x")),                             // 11 Mi payload format indicators in a PUBLISH
 		mk(0x30, []byte{0, 1, 'a'}, []byte{0x0B, 0x01}, 10<<20, nil),                                     // 10 Mi subscription identifiers
 		mk(0xE0, []byte{0x00}, []byte{0x26, 0, 0, 0, 0}, 3<<20, nil),                                     // 3 Mi empty user properties in a DISCONNECT
@@ -163,7 +176,7 @@ func c04Deep(c *sim.Ctx) *sim.Violation {
 		} else if len(msg) > 3000 {
 			msg = msg[:3000]
 		}
-		return sim.V("C04/deep-property-section/the-call-does-not-return-normally", "frames whose property section holds 3..11 Mi of the smallest properties (PUBLISH, DISCONNECT, SUBSCRIBE, CONNECT; 20..34 MB each), decoded in a child process: the process ended with %v\n%s", err, msg)
+		return sim.V("C04/deep-or-huge-frame/the-call-does-not-return-normally", "two malformed frames of 100 000 007 and 268 435 455 bytes and frames whose property section holds 3..11 Mi of the smallest properties (PUBLISH, DISCONNECT, SUBSCRIBE, CONNECT; 20..34 MB each), decoded in a child process: the process ended with %v\n%s", err, msg)
 	}
 	return nil
 }
